@@ -166,6 +166,29 @@ func rulesC03(c *Ctx) {
 
 	// eviction safety: a pointer marked dirty is withdrawn from the eviction list (shared with C02)
 	dirtyRollbackRule(c, "C03.evict")
+	// a node that derefNodePtr itself drops from the cache must be obtained again or an error returned; it must never
+	// be answered as "empty subtree" (nil, nil): that silently deletes everything below it (F15)
+	if fn := c.needFn("C03.evict", "storage/mkvs.(*cache).derefNodePtr"); fn != nil {
+		drops := CallsTo(fn, "c.removeNode(ptr)", "storage/mkvs.(*cache).removeNode", "")
+		var empties []ssa.Instruction
+		for _, r := range Returns(fn) {
+			if len(r.Results) == 2 && isNilConst(r.Results[0]) && isNilConst(r.Results[1]) {
+				empties = append(empties, r)
+			}
+		}
+		ok := len(empties) > 0
+		var at ssa.Instruction
+		for _, d := range drops.Ins {
+			if hit := Reach(fn, d, nil, anyOf(empties), nil); hit != nil {
+				ok, at = false, hit
+			}
+		}
+		site := c.P.Pos(fn.Pos())
+		if at != nil {
+			site = c.P.InstrPos(at)
+		}
+		c.Check(ok, "C03.evict", fname(fn)+":a dropped node is re-fetched or an error, never 'empty'", site, "after dropping a cached node every exit re-fetches it or reports an error", "after dropping a cached node (an internal node whose embedded leaf was evicted) derefNodePtr can answer (nil, nil) when the pointer is not clean: a locally modified subtree reads as empty and is lost at the next commit")
+	}
 
 	// ---- (b) transaction-context discipline
 	nTx := 0
